@@ -495,6 +495,11 @@ def run(ctx, repo, tier):
     from .C05 import analyse as c05_analyse
     for prop in ("border_len", "center_distances"):
         c05_analyse(ctx, repo, prop)
+    # the saved volumes are the position-cell volumes (times f^3 times the rotation-cell volumes, see below): V_i of the stationary
+    # density V_i*exp(-E_i/RT) is wrong whenever these are
+    from ..driver import PrefixCtx as _PCv
+    from .C05 import position_volumes as c05_position_volumes
+    c05_position_volumes(_PCv(ctx, "C05.", "C14.posvol."), repo)
     # ------------------------------------------------------------ inherited: the lift of the position matrix to the full grid (C02): entry
     # (n_b*i+k, n_b*j+k) of borders AND distances must carry the value of the position pair (i,j) - S_ij/h_ij is formed entry by entry
     from ..driver import PrefixCtx as _PC
